@@ -26,6 +26,8 @@ func startProc(kind string, timeoutMs int) (*proc, error) {
 		cmd = exec.Command("z3", "-in", fmt.Sprintf("-t:%d", timeoutMs))
 	case "z3-new":
 		cmd = exec.Command("z3-new", "-in", fmt.Sprintf("-t:%d", timeoutMs))
+	case "cvc5-int":
+		cmd = exec.Command("cvc5", "--incremental", "--lang=smt2", fmt.Sprintf("--tlimit-per=%d", timeoutMs), "--produce-models", "--solve-bv-as-int=sum")
 	case "cvc5":
 		cmd = exec.Command("cvc5", "--incremental", "--lang=smt2", fmt.Sprintf("--tlimit-per=%d", timeoutMs), "--produce-models")
 	default:
@@ -46,7 +48,7 @@ func startProc(kind string, timeoutMs int) (*proc, error) {
 	p := &proc{name: kind, cmd: cmd, in: in, out: bufio.NewReaderSize(out, 1<<16)}
 	p.send("(set-option :print-success false)")
 	p.send("(set-option :produce-models true)")
-	if kind == "cvc5" {
+	if kind == "cvc5" || kind == "cvc5-int" {
 		p.send("(set-logic ALL)")
 	}
 	return p, nil
@@ -143,10 +145,11 @@ type Solver struct {
 	XDisagree []string
 	timeoutMs int
 	kinds     []string
+	primKind  string
 }
 
-func NewSolver(tt *TermTable, timeoutMs int, mirrors []string) (*Solver, error) {
-	s := &Solver{tt: tt, timeoutMs: timeoutMs, kinds: mirrors}
+func NewSolver(tt *TermTable, timeoutMs int, mirrors []string, primary string) (*Solver, error) {
+	s := &Solver{tt: tt, timeoutMs: timeoutMs, kinds: mirrors, primKind: primary}
 	if err := s.start(); err != nil {
 		return nil, err
 	}
@@ -154,7 +157,10 @@ func NewSolver(tt *TermTable, timeoutMs int, mirrors []string) (*Solver, error) 
 }
 
 func (s *Solver) start() error {
-	prim := os.Getenv("GOSYM_PRIMARY")
+	prim := s.primKind
+	if prim == "" {
+		prim = os.Getenv("GOSYM_PRIMARY")
+	}
 	if prim == "" {
 		prim = "z3-new"
 	}
